@@ -68,6 +68,9 @@ func streamC19(c *Ctx) {
 					m["dotted.key"] = h.val() // a top-level field whose name contains a dot is not a path
 					m["n.zz"] = int64(j)
 				}
+				if g.pick(4) == 0 {
+					m["_expiresAt"] = boundaryTimes()[g.pick(10)] // a document with an expiration must survive export + import
+				}
 				if g.pick(2) == 0 {
 					m["when"] = boundaryTimes()[g.pick(10)]
 					m["deep"] = []interface{}{map[string]interface{}{"t": boundaryTimes()[g.pick(10)], "n": int64(g.pick(100))}}
